@@ -74,7 +74,14 @@ def lenI {α : Type} (s : List α) : Int := (s.length : Int)
 /-- `s[i]` for `0 ≤ i < len s` (the translator emits the bound check before the use). -/
 def idx (s : List UInt8) (i : Int) : UInt8 := s.getD i.toNat 0
 
+/-- `s[i]` on a slice of abstract objects. -/
+def idxG {α : Type} [Inhabited α] (s : List α) (i : Int) : α := s.getD i.toNat default
+
 /-- `s[lo:hi]` for `0 ≤ lo ≤ hi ≤ len s` (the translator emits the bound check before the use). -/
 def slice {α : Type} (s : List α) (lo hi : Int) : List α := (s.take hi.toNat).drop lo.toNat
+
+/-- A callee that fills the caller's buffer `p` with the data `d` it produced (`d` is cut to the
+buffer's length; the bytes behind it keep their old values). -/
+def fill {α : Type} (p d : List α) : List α := d.take p.length ++ p.drop (d.take p.length).length
 
 end Kit.GoSem
